@@ -49,6 +49,8 @@ type ScriptedClient struct {
 	autoConns []net.Conn
 	autoWG    sync.WaitGroup
 	noAuto    bool
+	// SignWork, when set, fills the credential fields of automatically opened work connections.
+	SignWork func(m *msg.NewWorkConn)
 }
 
 type ClientOpt func(*v1.ClientCommonConfig)
@@ -336,7 +338,11 @@ func (sc *ScriptedClient) WaitControlClosed(timeout time.Duration) error {
 
 // OpenWorkConn dials a new connection/stream and sends NewWorkConn for runID.
 func (sc *ScriptedClient) OpenWorkConn(runID string) (net.Conn, error) {
-	return sc.OpenWorkConnMsg(&msg.NewWorkConn{RunID: runID})
+	m := &msg.NewWorkConn{RunID: runID}
+	if sc.SignWork != nil {
+		sc.SignWork(m)
+	}
+	return sc.OpenWorkConnMsg(m)
 }
 
 func (sc *ScriptedClient) OpenWorkConnMsg(m *msg.NewWorkConn) (net.Conn, error) {
